@@ -145,6 +145,8 @@ pub struct CallRec {
     pub result: Option<Result<u64, String>>,
     pub echo: Option<u64>,
     pub cancelled: bool,
+    /// checkpoints the callee had logged for this call when the caller dropped the call future
+    pub ck_at_drop: Option<usize>,
 }
 
 fn tick(c: &AtomicU64) -> u64 {
@@ -222,16 +224,21 @@ pub enum COp {
     CancelAdd { steps: u32, nc: bool, polls: u32 },
     CancelSlow { steps: u32, polls: u32 },
     Slow { steps: u32 },
+    /// a call whose reply is `size` bytes (many chunks, blocked on flow control with small receive buffers)
+    Blob { size: u32 },
+    /// the same, abandoned by the caller after n polls: typically while the reply is being transmitted
+    CancelBlob { size: u32, polls: u32 },
     Pause(u64),
 }
 
-async fn client_task(cid: usize, mut client: AcctClient, script: Vec<(u64, COp)>, clock: Arc<AtomicU64>, calls: Arc<Mutex<Vec<CallRec>>>) {
+async fn client_task(cid: usize, mut client: AcctClient, script: Vec<(u64, COp)>, clock: Arc<AtomicU64>, calls: Arc<Mutex<Vec<CallRec>>>, log: Log) {
+    let ck_now = |id: u64| log.lock().unwrap().iter().filter(|e| matches!(e, LogEv::Checkpoint(i, _) if *i == id)).count();
     for (id, op) in script {
         crate::simnet::bump_progress();
         let bit = 1u64 << (id % 64);
         let push = |kind: &'static str, delta: u64| {
             let mut g = calls.lock().unwrap();
-            g.push(CallRec { id, client: cid, kind, delta, call: tick(&clock), ret: None, result: None, echo: None, cancelled: false });
+            g.push(CallRec { id, client: cid, kind, delta, call: tick(&clock), ret: None, result: None, echo: None, cancelled: false, ck_at_drop: None });
             g.len() - 1
         };
         let finish = |idx: usize, r: Result<(u64, u64), CallError>| {
@@ -263,8 +270,10 @@ async fn client_task(cid: usize, mut client: AcctClient, script: Vec<(u64, COp)>
                 match r {
                     Some(r) => finish(idx, r),
                     None => {
+                        let ck = ck_now(id);
                         let mut g = calls.lock().unwrap();
                         g[idx].cancelled = true;
+                        g[idx].ck_at_drop = Some(ck);
                         g[idx].ret = Some(tick(&clock));
                     }
                 }
@@ -285,10 +294,37 @@ async fn client_task(cid: usize, mut client: AcctClient, script: Vec<(u64, COp)>
             COp::CancelSlow { steps, polls } => {
                 let idx = push("slow", 0);
                 let r = CancelAt::new(client.slow(id, steps), polls).await;
+                let ck = ck_now(id);
                 let mut g = calls.lock().unwrap();
                 g[idx].ret = Some(tick(&clock));
                 match r {
                     Some(Ok(e)) => g[idx].echo = Some(e),
+                    Some(Err(e)) => g[idx].result = Some(Err(e.to_string())),
+                    None => {
+                        g[idx].cancelled = true;
+                        g[idx].ck_at_drop = Some(ck);
+                    }
+                }
+            }
+            COp::Blob { size } => {
+                let idx = push("blob", 0);
+                let r = client.blob(id, size).await;
+                let mut g = calls.lock().unwrap();
+                g[idx].ret = Some(tick(&clock));
+                match r {
+                    Ok(v) if v.len() == size as usize && v.iter().all(|b| *b == 7) => g[idx].echo = Some(id),
+                    Ok(v) => g[idx].result = Some(Err(format!("WRONG-BLOB len={} expected {size}", v.len()))),
+                    Err(e) => g[idx].result = Some(Err(e.to_string())),
+                }
+            }
+            COp::CancelBlob { size, polls } => {
+                let idx = push("blob", 0);
+                let r = CancelAt::new(client.blob(id, size), polls).await;
+                let mut g = calls.lock().unwrap();
+                g[idx].ret = Some(tick(&clock));
+                match r {
+                    Some(Ok(v)) if v.len() == size as usize && v.iter().all(|b| *b == 7) => g[idx].echo = Some(id),
+                    Some(Ok(v)) => g[idx].result = Some(Err(format!("WRONG-BLOB len={} expected {size}", v.len()))),
                     Some(Err(e)) => g[idx].result = Some(Err(e.to_string())),
                     None => g[idx].cancelled = true,
                 }
@@ -303,11 +339,13 @@ fn gen_script(rng: &mut Rng, next_id: &mut u64, n: usize, cancel_pct: u64) -> Ve
             *next_id += 1;
             let id = *next_id;
             let op = match rng.below(100) {
+                x if x < cancel_pct / 4 => COp::CancelBlob { size: *rng.pick(&[300u32, 3_000, 20_000, 60_000]), polls: rng.below(40) as u32 },
                 x if x < cancel_pct / 2 => COp::CancelAdd { steps: rng.below(4) as u32, nc: rng.chance(50), polls: rng.below(8) as u32 },
                 x if x < cancel_pct => COp::CancelSlow { steps: 1 + rng.below(4) as u32, polls: rng.below(8) as u32 },
                 x if x < cancel_pct + 30 => COp::Get,
                 x if x < cancel_pct + 70 => COp::Add { steps: rng.below(4) as u32, nc: rng.chance(30) },
                 x if x < cancel_pct + 78 => COp::Slow { steps: rng.below(3) as u32 },
+                x if x < cancel_pct + 84 => COp::Blob { size: *rng.pick(&[300u32, 3_000, 20_000]) },
                 _ => COp::Pause(rng.below(4)),
             };
             (id, op)
@@ -343,7 +381,16 @@ pub fn run_one(prop: &'static str, run: u64, seed: u64) -> RunOut {
         .collect();
     // C19: failing calls injected by a dedicated client
     let fail_kinds: Vec<&'static str> = if c19 { (0..rng.below(3)).map(|_| *rng.pick(&["unknown-method", "unknown-method", "oversize-reply"])).collect() } else { vec![] };
-    let replay = json!({"run": run, "seed": seed, "flavour": format!("{flavour:?}"), "cfg_a": cfg_json(&cfg_a), "cfg_b": cfg_json(&cfg_b), "net": netcfg_class(&netcfg),
+    // C19: a client on a connection of its own that is cut while large replies are on their way
+    let doomed: Option<(crate::simnet::FaultKind, bool, usize, Vec<u32>)> = (c19 && rng.chance(40)).then(|| {
+        (
+            *rng.pick(&[crate::simnet::FaultKind::SinkError, crate::simnet::FaultKind::StreamError, crate::simnet::FaultKind::Eof]),
+            rng.chance(70),
+            1 + rng.usize_below(60),
+            (0..1 + rng.below(3)).map(|_| *rng.pick(&[3_000u32, 20_000, 60_000])).collect(),
+        )
+    });
+    let replay = json!({"run": run, "seed": seed, "doomed_connection": format!("{doomed:?}"), "flavour": format!("{flavour:?}"), "cfg_a": cfg_json(&cfg_a), "cfg_b": cfg_json(&cfg_b), "net": netcfg_class(&netcfg),
         "h1_pct": h1, "local_clients": n_local, "remote_clients": n_remote, "failing_calls": fail_kinds,
         "scripts": scripts.iter().map(|s| s.iter().map(|(i, o)| format!("#{i} {o:?}")).collect::<Vec<_>>()).collect::<Vec<_>>()});
     let mut out = RunOut::default();
@@ -386,7 +433,7 @@ pub fn run_one(prop: &'static str, run: u64, seed: u64) -> RunOut {
         let mut keep: Vec<Box<dyn std::any::Any + Send>> = Vec::new();
         let mut net0 = None;
         for i in 0..n_local {
-            tasks.push(crate::sched::spawn(client_task(i, client.clone(), scripts[i].clone(), clock.clone(), calls.clone())));
+            tasks.push(crate::sched::spawn(client_task(i, client.clone(), scripts[i].clone(), clock.clone(), calls.clone(), log.clone())));
         }
         let mut fail_task = None;
         if n_remote > 0 || !fail_kinds.is_empty() {
@@ -398,7 +445,7 @@ pub fn run_one(prop: &'static str, run: u64, seed: u64) -> RunOut {
                 let (sr, rr) = tokio::join!(tx.send(RShip::Client(client.clone())), rx.recv());
                 sr.map_err(|e| format!("shipping a client: {e}"))?;
                 let Ok(Some(RShip::Client(c))) = rr else { return Err("client did not arrive".into()) };
-                tasks.push(crate::sched::spawn(client_task(n_local + i, c, scripts[n_local + i].clone(), clock.clone(), calls.clone())));
+                tasks.push(crate::sched::spawn(client_task(n_local + i, c, scripts[n_local + i].clone(), clock.clone(), calls.clone(), log.clone())));
             }
             net0 = Some(net);
             keep.push(Box::new((tx, rxa, ca, txb, rx, cb, sched)));
@@ -440,9 +487,33 @@ pub fn run_one(prop: &'static str, run: u64, seed: u64) -> RunOut {
                 }
             })));
         }
+        let mut doomed_task = None;
+        if let Some((kind, reply_dir, after, sizes)) = doomed.clone() {
+            let (net3, a3, b3, sched3) = connect_rch_hetero::<RShip, (), (), RShip>(rch_cfg(&mut rng), rch_cfg(&mut rng), draw_netcfg(&mut rng), &mut rng).await?;
+            let RchEnd { tx: mut tx3, rx: rxa3, conn: ca3 } = a3;
+            let RchEnd { tx: txb3, rx: mut rx3, conn: cb3 } = b3;
+            let (sr, rr) = tokio::join!(tx3.send(RShip::Client(client.clone())), rx3.recv());
+            sr.map_err(|e| format!("shipping the doomed client: {e}"))?;
+            let Ok(Some(RShip::Client(dc))) = rr else { return Err("doomed client did not arrive".into()) };
+            // the cut comes `after` frames from now in the direction of the replies (or of the requests)
+            let dir = if reply_dir { crate::simnet::Dir::AB } else { crate::simnet::Dir::BA };
+            let (pa, pb) = net3.put_counts();
+            net3.set_fault(crate::simnet::Fault { dir, at: if reply_dir { pa } else { pb } + after, kind });
+            let results: Arc<Mutex<Vec<String>>> = Arc::new(Mutex::new(Vec::new()));
+            let res3 = results.clone();
+            let net3b = net3.clone();
+            keep.push(Box::new((tx3, rxa3, ca3, txb3, rx3, cb3, sched3)));
+            doomed_task = Some((results, net3, crate::sched::spawn(async move {
+                for (k, size) in sizes.iter().enumerate() {
+                    let r = dc.blob(800_000 + k as u64, *size).await;
+                    res3.lock().unwrap().push(format!("blob({size}) fault_fired={}: {}", net3b.fault_fired(), match r { Ok(v) => format!("Ok(len {})", v.len()), Err(e) => format!("Err({e})") }));
+                    crate::simnet::bump_progress();
+                }
+            })));
+        }
         for _ in 0..300 {
             settle().await;
-            if tasks.iter().all(|t| t.is_finished()) && fail_task.as_ref().map(|t| t.1.is_finished()).unwrap_or(true) {
+            if tasks.iter().all(|t| t.is_finished()) && doomed_task.as_ref().map(|t| t.2.is_finished()).unwrap_or(true) && fail_task.as_ref().map(|t| t.1.is_finished()).unwrap_or(true) {
                 break;
             }
             tokio::time::sleep(Duration::from_millis(3)).await;
@@ -488,6 +559,11 @@ pub fn run_one(prop: &'static str, run: u64, seed: u64) -> RunOut {
                     }
                 }
             }
+            if let Some(Err(e)) = &c.result {
+                if e.contains("WRONG-BLOB") {
+                    bad.push((format!("{prop}:answer-of-another-call"), format!("call {} (blob) received {e}", c.id)));
+                }
+            }
             if c.ret.is_none() && all_done {
                 bad.push((format!("{prop}:call-without-outcome"), format!("call {} ({}) has no outcome", c.id, c.kind)));
             }
@@ -528,6 +604,14 @@ pub fn run_one(prop: &'static str, run: u64, seed: u64) -> RunOut {
                 if adv2 > adv1 && !fin {
                     bad.push(("C19:cancelled-call-keeps-running".into(), format!("call {} ({}) was abandoned by its caller but advanced from checkpoint {adv1} to {adv2} after quiescence", c.id, c.kind)));
                 }
+                // The cancellation travels in zero virtual time (every runnable task runs before the paused clock
+                // advances) while each step of the callee takes 1 ms of it: after the drop the callee can pass at
+                // most the checkpoint whose sleep was already due.
+                if let Some(ck) = c.ck_at_drop {
+                    if adv2 > ck + 1 {
+                        bad.push(("C19:cancelled-call-keeps-running".into(), format!("call {} ({}) had passed {ck} checkpoints when its caller dropped the call future, and went on to pass {adv2} (finished={fin}): it was not cancelled", c.id, c.kind)));
+                    }
+                }
             }
             if !served_after {
                 bad.push(("C19:server-wedged".into(), format!("after abandoned and failing calls a fresh &mut call gives {probe_res:?}; serve() result: {sr:?}")));
@@ -545,6 +629,16 @@ pub fn run_one(prop: &'static str, run: u64, seed: u64) -> RunOut {
                     if !k.starts_with("get-after-") && r.starts_with("Ok") && k != "oversize-request-server-limit" {
                         bad.push(("C19:failing-call-succeeded".into(), format!("{k} returned {r}")));
                     }
+                }
+            }
+            if let Some((results, net3, t)) = &doomed_task {
+                let rs = results.lock().unwrap().clone();
+                out.count("cut_connections", net3.fault_fired() as u64);
+                for r in &rs {
+                    out.item("calls_over_cut_connection", r.split(':').next().unwrap_or("").split(' ').skip(1).collect::<Vec<_>>().join(" ") + if r.contains("Ok(") { " ok" } else { " failed" });
+                }
+                if !t.is_finished() {
+                    bad.push(("C19:call-pending-after-connection-cut".into(), format!("the connection of a client was cut ({:?}) and its call is still pending at quiescence; outcomes so far {rs:?}", doomed.as_ref().map(|d| d.0))));
                 }
             }
             if let Some(s) = &sr {
